@@ -34,14 +34,22 @@ HEADER_C = "# SPDX-FileCopyrightText: 2020 Jane\n"
 
 def bounds(tier, seed):
     return {"classes": list(CLASSES), "uses": USES, "provisions": PROVS,
-            "representatives": "two representatives of each class",
+            "representatives": "two representatives of each class, three for licenseref / exception / deprecated",
             "whole_list_trees": 11, "whole_list_provisions": ["txt", "md", "noext", "subdir", "plus-txt"], "spdx_identifiers": len(inv.SPDX)}
+
+
+CLASSES3 = {  # third representatives where the class has members of a different shape
+    "licenseref": "LicenseRef-Unknown-origin", "current": "0BSD-look-alike-not", "exception": "LLVM-exception", "deprecated": "Nunit",
+}
+CLASSES3.pop("current")
 
 
 def cases(tier, seed):
     for ci, cls in enumerate(CLASSES):
         reps = [CLASSES[cls]]
         reps.append(CLASSES2[cls])
+        if cls in CLASSES3:
+            reps.append(CLASSES3[cls])
         for ident in reps:
             for u in USES:
                 for p in PROVS:
